@@ -848,6 +848,17 @@ func (q *Q) OnlyIn(rule, key string, got map[string][]string, allowed []string, 
 					ok = false
 				}
 			}
+			// ... where a caller that is itself allowed ends the search (a helper of a private
+			// allowed function is not judged by that function's own callers)
+			if !ok {
+				if homes := q.p.callersWithin(k, al); len(homes) > 0 {
+					for _, h := range homes {
+						got[h] = append(got[h], got[k]...)
+					}
+					delete(got, k)
+					continue
+				}
+			}
 			if !ok {
 				// a private function started only by `go` statements of one function is
 				// the goroutine closure of that function under a name
@@ -1609,5 +1620,79 @@ func predBlock(e *Ev) *ssa.BasicBlock {
 	if e.Site != nil && e.In.Block() == e.In.Parent().Blocks[0] {
 		return e.Site.Block()
 	}
+	// ... or after a diamond that re-joins: under no condition of the helper, on every path of it
+	if e.Site != nil && len(guardAtomsOfBlock(e.In.Block())) == 0 && everyPath(e.In) {
+		return e.Site.Block()
+	}
 	return e.In.Block()
+}
+
+// callersWithin: every static call chain upwards from the private function `name` reaches a
+// function of the allowed set (directly, or through further private helpers / closures run in
+// place) before it reaches anything else.
+func (p *Prog) callersWithin(name string, allowed map[string]bool) []string {
+	if p.byName == nil {
+		p.attributedTo(name)
+	}
+	fn := p.byName[name]
+	if fn == nil {
+		return nil
+	}
+	homes := map[string]bool{}
+	seen := map[*ssa.Function]bool{}
+	var up func(f *ssa.Function, d int) bool
+	up = func(f *ssa.Function, d int) bool {
+		if seen[f] {
+			return true
+		}
+		seen[f] = true
+		if d > 0 && allowed[p.FuncName(f)] {
+			homes[p.FuncName(f)] = true
+			return true
+		}
+		if d > 0 && allowed[p.FuncName(p.closureHome(f))] {
+			homes[p.FuncName(p.closureHome(f))] = true
+			return true
+		}
+		if d >= 4 {
+			return false
+		}
+		if f.Parent() != nil {
+			// a closure: judged as its enclosing function unless that started it as a goroutine
+			return up(f.Parent(), d+1)
+		}
+		if !lowerName(f.Name()) {
+			return false
+		}
+		n := p.CG().Nodes[f]
+		if n == nil {
+			return false
+		}
+		callers := 0
+		for _, e := range n.In {
+			if !p.moduleFunc(e.Caller.Func) || e.Site == nil {
+				continue
+			}
+			if _, isGo := e.Site.(*ssa.Go); isGo {
+				return false
+			}
+			if e.Site.Common().StaticCallee() != f {
+				return false
+			}
+			callers++
+			if !up(e.Caller.Func, d+1) {
+				return false
+			}
+		}
+		return callers > 0
+	}
+	if !up(fn, 0) {
+		return nil
+	}
+	var out []string
+	for h := range homes {
+		out = append(out, h)
+	}
+	sort.Strings(out)
+	return out
 }
